@@ -862,6 +862,15 @@ static mi_segment_t* mi_segment_os_alloc( size_t required, size_t page_alignment
   if (memid.initially_committed) {
     mi_commit_mask_create_full(&commit_mask);
   }
+  else if (required > 0) {
+    // a huge segment must be fully committed as its commit mask cannot track partial commits (see `mi_segment_ensure_committed`);
+    // we get here if the arena could not commit the memory (the OS refused): try once more and fail cleanly otherwise.
+    if (!_mi_os_commit(segment, segment_size, NULL)) {
+      _mi_arena_free(segment,segment_size,0,memid);
+      return NULL;
+    }
+    mi_commit_mask_create_full(&commit_mask);
+  }
   else {
     // at least commit the info slices
     const size_t commit_needed = _mi_divide_up((*pinfo_slices)*MI_SEGMENT_SLICE_SIZE, MI_COMMIT_SIZE);
